@@ -617,10 +617,32 @@ Proof.
   rewrite IH by assumption. cbn [rev]. rewrite <- app_assoc. reflexivity.
 Qed.
 
-Lemma lex_atom a t p q o : atom_ok q a ->
-  exists p', fold_left lex_step (atom_bytes a) (B MText t p q o Clean) = B MText (atom_char a :: t) p' (atom_last a) o Clean.
+Lemma last_nonnil {A} (l : list A) d d' : l <> [] -> last l d = last l d'.
 Proof.
-  destruct a as [c|raw c| |]; cbn [atom_ok atom_bytes atom_char atom_last].
+  induction l as [|x l IH]; intros H; [contradiction|]. destruct l as [|y l]; [reflexivity|]. cbn [last] in *. apply IH. discriminate.
+Qed.
+
+(* bytes >= 128 are copied *)
+Lemma lex_high_bytes : forall bs t p q o, Forall (fun c => 128 <= c) bs ->
+  exists p', fold_left lex_step bs (B MText t p q o Clean) = B MText (rev bs ++ t) p' (last bs q) o Clean.
+Proof.
+  induction bs as [|c bs IH]; intros t p q o HF; [exists p; reflexivity|].
+  inversion HF as [|? ? Hc HF']; subst.
+  assert (E : lex_step (B MText t p q o Clean) c = B MText (c :: t) q c o Clean).
+  { unfold lex_step, text_step. cbn [mode b0 b1].
+    assert (E1 : (c =? c_gt) = false) by (chars; lia). assert (E2 : (c =? c_lt) = false) by (chars; lia).
+    assert (E3 : (c =? c_amp) = false) by (chars; lia). assert (E4 : (c =? c_cr) = false) by (chars; lia).
+    assert (E5 : (c =? c_nl) = false) by (chars; lia). assert (E6 : is_ctrl c = false) by (chars; lia).
+    rewrite E1, andb_false_r, E2, E3, E4. cbn [b1]. rewrite E5, andb_false_r, E6. reflexivity. }
+  cbn [fold_left]. rewrite E. destruct (IH (c :: t) q c o HF') as [p' ->]. exists p'.
+  cbn [rev]. rewrite <- app_assoc. cbn [app]. destruct bs as [|n bs]; [reflexivity|].
+  rewrite (last_nonnil (n :: bs) c q) by discriminate. reflexivity.
+Qed.
+
+Lemma lex_atom a t p q o : atom_ok q a ->
+  exists p', fold_left lex_step (atom_bytes a) (B MText t p q o Clean) = B MText (rev (atom_chars a) ++ t) p' (atom_last a) o Clean.
+Proof.
+  destruct a as [c|raw c|raw bs|bs| |]; cbn [atom_ok atom_bytes atom_chars atom_last rev app].
   - intros (H1 & H2 & H3 & H4 & H5 & H6 & H7). exists q.
     cbn [fold_left]. unfold lex_step, text_step. cbn [mode b0 b1].
     assert (E1 : (p =? c_rb) && (q =? c_rb) && (c =? c_gt) = false) by (chars; lia).
@@ -637,6 +659,16 @@ Proof.
     rewrite E0, lex_ent_chars by assumption. rewrite app_nil_r. cbn [fold_left].
     unfold lex_step. cbn [mode]. replace (c_semi =? c_semi) with true by reflexivity.
     rewrite frev_rev, rev_involutive, H2, H3. reflexivity.
+  - intros (H1 & H2 & H3 & H4). exists 0.
+    cbn [fold_left]. rewrite fold_left_app.
+    assert (E0 : lex_step (B MText t p q o Clean) c_amp = B (MEnt []) t p q o Clean).
+    { unfold lex_step, text_step. cbn [mode b0 b1].
+      replace (c_amp =? c_gt) with false by reflexivity. rewrite andb_false_r. reflexivity. }
+    rewrite E0, lex_ent_chars by assumption. rewrite app_nil_r. cbn [fold_left].
+    unfold lex_step. cbn [mode]. replace (c_semi =? c_semi) with true by reflexivity.
+    rewrite frev_rev, rev_involutive, H2. unfold reset_b, set_mode, puts. cbn [mode txt b0 b1 out st]. rewrite frev_rev. reflexivity.
+  - intros (H1 & H2 & H3). destruct (lex_high_bytes bs t p q o H2) as [p' ->]. exists p'.
+    rewrite (last_nonnil bs q 0 H1). reflexivity.
   - intros _. exists q. cbn [fold_left]. unfold lex_step, text_step. cbn [mode b0 b1].
     replace (c_cr =? c_gt) with false by reflexivity. rewrite andb_false_r. reflexivity.
   - intros _. exists c_cr. cbn [fold_left]. unfold lex_step, text_step. cbn [mode b0 b1].
@@ -650,31 +682,51 @@ Proof.
   induction l as [|a l IH]; intros t p q o H.
   - exists p, q. reflexivity.
   - destruct H as [Ha Hl]. destruct (lex_atom a t p q o Ha) as [p1 E1].
-    destruct (IH (atom_char a :: t) p1 (atom_last a) o Hl) as (p' & q' & E2).
+    destruct (IH (rev (atom_chars a) ++ t) p1 (atom_last a) o Hl) as (p' & q' & E2).
     exists p', q'. unfold text_bytes in *. cbn [map concat]. rewrite fold_left_app, E1, E2.
-    unfold text_chars. cbn [map rev]. rewrite <- app_assoc. reflexivity.
+    unfold text_chars. cbn [map concat]. rewrite rev_app_distr, <- app_assoc. reflexivity.
 Qed.
 
-Definition ascii (s : bytes) : Prop := Forall (fun c => c < 128) s.
-Lemma utf8_valid_ascii s : ascii s -> utf8_valid s = true.
+(* UTF-8 validity composes *)
+Fixpoint urun (u : ustate) (s : bytes) : option ustate :=
+  match s with
+  | [] => Some u
+  | c :: r => match utf8_step u c with Some u' => urun u' r | None => None end
+  end.
+Lemma utf8_from_run : forall s u, utf8_from u s = match urun u s with Some U0 => true | _ => false end.
 Proof.
-  unfold utf8_valid. induction 1 as [|c s Hc Hs IH]; [reflexivity|]. cbn [utf8_from utf8_step].
-  destruct (c <? 128) eqn:E; [exact IH|lia].
+  induction s as [|c r IH]; intros u; cbn [utf8_from urun]; [destruct u; reflexivity|].
+  destruct (utf8_step u c); [apply IH|reflexivity].
 Qed.
-Lemma ascii_rev s : ascii s -> ascii (rev s).
-Proof. intros H. apply Forall_forall. intros x Hx. apply in_rev in Hx. unfold ascii in H. rewrite Forall_forall in H. auto. Qed.
-
-Lemma flush_ascii t p q o : ascii t -> flush (B MText t p q o Clean) = B MText [] 0 0 (flushed t o) Clean.
+Lemma urun_app : forall a u b, urun u (a ++ b) = match urun u a with Some u' => urun u' b | None => None end.
+Proof. induction a as [|c a IH]; intros u b; cbn [app urun]; [reflexivity|]. destruct (utf8_step u c); [apply IH|reflexivity]. Qed.
+Lemma utf8_valid_run s : utf8_valid s = true <-> urun U0 s = Some U0.
 Proof.
-  intros H. unfold flush, flushed. cbn [mode txt b0 b1 out st]. rewrite utf8_valid_ascii by (rewrite frev_rev; apply ascii_rev; assumption).
-  destruct t; reflexivity.
+  unfold utf8_valid. rewrite utf8_from_run. destruct (urun U0 s) as [[| | |]|]; split; intros H; try discriminate; reflexivity.
+Qed.
+Lemma utf8_valid_app a b : utf8_valid a = true -> utf8_valid b = true -> utf8_valid (a ++ b) = true.
+Proof. rewrite !utf8_valid_run. intros Ha Hb. rewrite urun_app, Ha. exact Hb. Qed.
+Lemma utf8_valid_ascii1 c : c < 128 -> utf8_valid [c] = true.
+Proof. intros H. unfold utf8_valid. cbn. destruct (c <? 128) eqn:E; [reflexivity|lia]. Qed.
+
+(* the pending (reversed) text of a run is valid so far *)
+Definition uvalid (t : bytes) : Prop := utf8_valid (rev t) = true.
+Lemma uvalid_nil : uvalid [].
+Proof. reflexivity. Qed.
+Lemma uvalid_push t s : uvalid t -> utf8_valid s = true -> uvalid (rev s ++ t).
+Proof. unfold uvalid. intros Ht Hs. rewrite rev_app_distr, rev_involutive. apply utf8_valid_app; assumption. Qed.
+
+Lemma flush_valid t p q o : uvalid t -> flush (B MText t p q o Clean) = B MText [] 0 0 (flushed t o) Clean.
+Proof.
+  intros H. unfold flush, flushed. cbn [mode txt b0 b1 out st]. rewrite frev_rev, H.
+  destruct t; [reflexivity|]. rewrite <- frev_rev. reflexivity.
 Qed.
 
-Lemma lex_lt t p q o : ascii t -> lex_step (B MText t p q o Clean) c_lt = B MLt [] 0 0 (flushed t o) Clean.
+Lemma lex_lt t p q o : uvalid t -> lex_step (B MText t p q o Clean) c_lt = B MLt [] 0 0 (flushed t o) Clean.
 Proof.
   intros H. unfold lex_step, text_step. cbn [mode b0 b1]. replace (c_lt =? c_gt) with false by reflexivity.
   rewrite andb_false_r. replace (c_lt =? c_lt) with true by reflexivity.
-  rewrite flush_ascii by assumption. reflexivity.
+  rewrite flush_valid by assumption. reflexivity.
 Qed.
 
 Lemma lex_start_name_chars : forall r acc t p q o,
@@ -734,7 +786,7 @@ Proof.
     rewrite E, fold_left_app, lex_end_ws by assumption. reflexivity.
 Qed.
 
-Lemma lex_piece_tag pc t p q o : piece_ok pc -> is_text pc = false -> ascii t ->
+Lemma lex_piece_tag pc t p q o : piece_ok pc -> is_text pc = false -> uvalid t ->
   fold_left lex_step (piece_bytes pc) (B MText t p q o Clean) = B MText [] 0 0 (rev (piece_tokens pc) ++ flushed t o) Clean.
 Proof.
   destruct pc as [l|n ws|n ws|n ws]; intros HP HT HA; try discriminate; destruct HP as [HN HW];
@@ -756,20 +808,31 @@ Proof.
     replace (rev r ++ [c]) with (rev (c :: r)) by reflexivity. apply (lex_start_tail (c :: r) ws _ HW).
 Qed.
 
-Lemma text_chars_nonnil l : l <> [] -> text_chars l <> [].
-Proof. destruct l; [contradiction|discriminate]. Qed.
-
-Lemma atoms_chars_ascii : forall l prev, atoms_ok prev l -> ascii (text_chars l).
+Lemma atom_chars_facts prev a : atom_ok prev a -> atom_chars a <> [] /\ utf8_valid (atom_chars a) = true.
 Proof.
-  induction l as [|a l IH]; intros prev H; [constructor|]. destruct H as [Ha Hl]. constructor; [|apply (IH _ Hl)].
-  destruct a as [c|raw c| |]; cbn in *; [tauto|tauto|reflexivity|reflexivity].
+  destruct a as [c|raw c|raw bs|bs| |]; cbn [atom_ok atom_chars].
+  - intros (H1 & _). split; [discriminate|apply utf8_valid_ascii1; assumption].
+  - intros (_ & _ & _ & H). split; [discriminate|apply utf8_valid_ascii1; assumption].
+  - intros (_ & _ & H1 & H2). auto.
+  - intros (H1 & _ & H2). auto.
+  - intros _. split; [discriminate|reflexivity].
+  - intros _. split; [discriminate|reflexivity].
+Qed.
+
+Lemma text_chars_facts : forall l prev, atoms_ok prev l -> (l <> [] -> text_chars l <> []) /\ utf8_valid (text_chars l) = true.
+Proof.
+  induction l as [|a l IH]; intros prev H; [split; [intros C; contradiction|reflexivity]|].
+  destruct H as [Ha Hl]. destruct (atom_chars_facts _ _ Ha) as [N1 V1]. destruct (IH _ Hl) as [_ V2].
+  unfold text_chars in *. cbn [map concat]. split.
+  - intros _ E. apply app_eq_nil in E. destruct E. contradiction.
+  - apply utf8_valid_app; assumption.
 Qed.
 
 Lemma lex_pieces : forall ps t p q o,
-  Forall piece_ok ps -> no_adjacent_text ps -> ascii t ->
+  Forall piece_ok ps -> no_adjacent_text ps -> uvalid t ->
   (match ps with pc :: _ => is_text pc = true -> t = [] /\ q = 0 | [] => True end) ->
   exists t' p' q' o', fold_left lex_step (render ps) (B MText t p q o Clean) = B MText t' p' q' o' Clean
-     /\ rev (flushed t' o') = rev (flushed t o) ++ tokens_of ps /\ ascii t'.
+     /\ rev (flushed t' o') = rev (flushed t o) ++ tokens_of ps /\ uvalid t'.
 Proof.
   induction ps as [|pc ps IH]; intros t p q o HP HA HAS HT.
   - exists t, p, q, o. split; [reflexivity|]. split; [|assumption]. cbn. rewrite app_nil_r. reflexivity.
@@ -781,54 +844,18 @@ Proof.
       destruct (HT eq_refl) as [-> ->].
       destruct (lex_atoms l [] p 0 o Hok) as (p1 & q1 & E1). cbn [piece_bytes]. rewrite E1.
       destruct (IH (rev (text_chars l) ++ []) p1 q1 o HP' HA') as (t' & p' & q' & o' & E2 & E3 & E4).
-      { rewrite app_nil_r. apply ascii_rev. apply (atoms_chars_ascii l 0 Hok). }
+      { apply uvalid_push; [apply uvalid_nil|apply (text_chars_facts l 0 Hok)]. }
       { destruct ps as [|pc2 ps]; [exact I|]. destruct HA as [HA _]. cbn in HA. intros H. rewrite H in HA. discriminate. }
       exists t', p', q', o'. split; [exact E2|]. split; [|exact E4]. rewrite E3. cbn [piece_tokens app flushed rev].
       rewrite app_nil_r. destruct (rev (text_chars l)) as [|c r] eqn:ER.
-      * exfalso. apply (text_chars_nonnil l Hne). apply (f_equal (@rev _)) in ER. rewrite rev_involutive in ER. exact ER.
+      * exfalso. apply (proj1 (text_chars_facts l 0 Hok) Hne). apply (f_equal (@rev _)) in ER. rewrite rev_involutive in ER. exact ER.
       * cbn [flushed rev]. rewrite <- ER, frev_rev, rev_involutive, <- app_assoc. reflexivity.
     + rewrite (lex_piece_tag pc t p q o Hpc T HAS).
       destruct (IH [] 0 0 (rev (piece_tokens pc) ++ flushed t o) HP' HA') as (t' & p' & q' & o' & E2 & E3 & E4).
-      { constructor. }
+      { apply uvalid_nil. }
       { destruct ps; [exact I|]. intros _. split; reflexivity. }
       exists t', p', q', o'. split; [exact E2|]. split; [|exact E4]. rewrite E3. cbn [flushed].
       rewrite rev_app_distr, rev_involutive, <- app_assoc. reflexivity.
-Qed.
-
-Lemma atoms_ascii : forall l prev, atoms_ok prev l -> Forall (fun c => c < 128) (text_bytes l).
-Proof.
-  induction l as [|a l IH]; intros prev H; [constructor|]. destruct H as [Ha Hl].
-  unfold text_bytes in *. cbn [map concat]. apply Forall_app. split; [|apply (IH _ Hl)].
-  destruct a as [c|raw c| |]; cbn in *.
-  - constructor; [tauto|constructor].
-  - destruct Ha as (HF & _). constructor; [chars; lia|]. apply Forall_app. split; [|constructor; [chars; lia|constructor]].
-    eapply Forall_impl; [|exact HF]. intros b Hb. apply (ent_char_facts _ Hb).
-  - constructor; [chars; lia|constructor].
-  - repeat constructor; chars; lia.
-Qed.
-
-Lemma piece_ascii pc : piece_ok pc -> Forall (fun c => c < 128) (piece_bytes pc).
-Proof.
-  assert (NM : forall n, name_ok n -> Forall (fun c => c < 128) n).
-  { intros [|c r] H; [contradiction|]. destruct H as [Hc Hr]. constructor; [apply (name_start_facts _ Hc)|].
-    eapply Forall_impl; [|exact Hr]. intros b Hb. apply (name_char_facts _ Hb). }
-  assert (WS : forall ws, ws_ok ws -> Forall (fun c => c < 128) ws).
-  { intros ws H. eapply Forall_impl; [|exact H]. intros b Hb. apply (blank_facts _ Hb). }
-  destruct pc as [l|n ws|n ws|n ws]; cbn [piece_ok piece_bytes]; intros H.
-  - apply (atoms_ascii l 0). tauto.
-  - destruct H as [H1 H2]. constructor; [chars; lia|]. apply Forall_app. split; [auto|]. apply Forall_app. split; [auto|].
-    constructor; [chars; lia|constructor].
-  - destruct H as [H1 H2]. constructor; [chars; lia|]. constructor; [chars; lia|]. apply Forall_app. split; [auto|]. apply Forall_app. split; [auto|].
-    constructor; [chars; lia|constructor].
-  - destruct H as [H1 H2]. constructor; [chars; lia|]. apply Forall_app. split; [auto|]. apply Forall_app. split; [auto|].
-    repeat constructor; chars; lia.
-Qed.
-
-Lemma render_ascii ps : Forall piece_ok ps -> existsb (fun c => 128 <=? c) (render ps) = false.
-Proof.
-  intros HP. assert (HF : Forall (fun c => c < 128) (render ps)).
-  { induction HP as [|pc ps Hpc HP IH]; [constructor|]. unfold render in *. cbn [map concat]. apply Forall_app. split; [apply piece_ascii; assumption|assumption]. }
-  induction HF as [|c r Hc HF IH]; [reflexivity|]. cbn [existsb]. rewrite IH. destruct (128 <=? c) eqn:E; [lia|reflexivity].
 Qed.
 
 Theorem lex_rendered ps : Forall piece_ok ps -> no_adjacent_text ps ->
@@ -836,10 +863,10 @@ Theorem lex_rendered ps : Forall piece_ok ps -> no_adjacent_text ps ->
 Proof.
   intros HP HA.
   destruct (lex_pieces ps [] 0 0 [] HP HA) as (t' & p' & q' & o' & E & ET & EA).
-  { constructor. }
+  { apply uvalid_nil. }
   { destruct ps; [exact I|]. intros _. split; reflexivity. }
   unfold raw_tokens, raw_status, lex_run, lex_init. rewrite E.
-  unfold lex_finish. cbn [mode]. rewrite flush_ascii by assumption. cbn [out st]. split; [|reflexivity].
+  unfold lex_finish. cbn [mode]. rewrite flush_valid by assumption. cbn [out st]. split; [|reflexivity].
   rewrite frev_rev. cbn in ET. rewrite <- ET. reflexivity.
 Qed.
 
@@ -1510,7 +1537,7 @@ Proof. intros ls b H. split; [apply gtext_read; exact H | apply (glines_read ls 
 (* ------------------------------------------------------------------------------------------- *)
 (* a concrete document satisfying every hypothesis of the theorems above, and the theorems applied to it *)
 Definition ex_text : list atom :=
-  map ARaw (raw " k = v1 "%hex) ++ [ACrLf] ++ map ARaw (raw "#c"%hex) ++ [ARaw 10] ++
+  map ARaw (raw " k = v1 "%hex) ++ [ACrLf] ++ map ARaw (raw "#c"%hex) ++ [AUtf8 [230; 151; 165]; AEntU (raw "#233"%hex) [195; 169]; ARaw 10] ++
   map ARaw (raw "k=a"%hex) ++ [AEnt (raw "amp"%hex) 38] ++ map ARaw (raw "b=c ]"%hex) ++ [AEnt (raw "gt"%hex) 62; ARaw 10].
 Definition ex_doc : list piece :=
   [POpen (raw "a"%hex) [32]; PText ex_text; PEmpty (raw "b.1"%hex) []; PClose (raw "a"%hex) [10];
@@ -1581,7 +1608,7 @@ Qed.
 (* the same document read as grammar lines *)
 Definition ex_dec (l : list atom) : list gline * bool :=
   if (length l =? 5)%nat then ([GKV [] (raw "top"%hex) [] [] (raw "1"%hex) []], false)
-  else ([GKV [32] (raw "k"%hex) [32] [32] (raw "v1"%hex) [32]; GComment [] (raw "c"%hex);
+  else ([GKV [32] (raw "k"%hex) [32] [32] (raw "v1"%hex) [32]; GComment [] (raw "c"%hex ++ [230; 151; 165; 195; 169]);
          GKV [] (raw "k"%hex) [] [] (raw "a&b=c ]>"%hex) []], true).
 
 Ltac notin := intros HH; vm_compute in HH; repeat (destruct HH as [HH|HH]; [discriminate HH|]); contradiction.
@@ -1619,4 +1646,140 @@ Proof.
     + repeat split; try notin; [exists 116, (raw "op"%hex)|exists (raw "to"%hex), 112]; split; try reflexivity; discriminate.
     + vm_compute. discriminate.
     + rewrite Hp in Hp'. injection Hp' as <-. rewrite H3. vm_compute. reflexivity.
+Qed.
+
+(* ------------------------------------------------------------------------------------------- *)
+(* without the disjointness of key and sub-domain names the statement is false of the model (and of the code):
+   a key line named like an earlier sub-domain of the same domain replaces the whole sub-domain *)
+Definition complete_full_statement : Prop := forall ps,
+  doc_ok ps -> short_lines (tokens_of ps) -> exists t, parse (render ps) = Ok t /\ represents t (piece_events ps).
+
+Definition col_doc : list piece :=
+  [POpen (raw "a"%hex) []; POpen (raw "b"%hex) []; PText (map ARaw (raw "c=2"%hex)); PClose (raw "b"%hex) [];
+   PText (map ARaw (raw "b=1"%hex)); PClose (raw "a"%hex) []].
+
+Example col_doc_ok : doc_ok col_doc.
+Proof. unfold doc_ok. split; [|split]; solve_ok. Qed.
+Example col_short : short_lines (tokens_of col_doc).
+Proof.
+  intros t seg Hin Hseg. vm_compute in Hin.
+  repeat (destruct Hin as [Hin|Hin]; [first [discriminate Hin | injection Hin as <-; vm_compute in Hseg;
+    repeat (destruct Hseg as [<-|Hseg]; [vm_compute; reflexivity|]); contradiction]|]).
+  contradiction.
+Qed.
+
+Theorem complete_full_refuted : ~ complete_full_statement.
+Proof.
+  intros H. destruct (H col_doc col_doc_ok col_short) as (t & Hp & R).
+  assert (E : parse (render col_doc) = Ok (run_events (piece_events col_doc))) by (apply parse_rendered; [apply col_doc_ok|apply col_short]).
+  rewrite E in Hp. injection Hp as <-.
+  pose proof (rep_key _ _ R [raw "b"%hex; raw "a"%hex; root_name] (raw "c"%hex)) as K.
+  assert (H1 : raw "c"%hex <> []) by discriminate.
+  assert (H2 : assigns (piece_events col_doc) [raw "b"%hex; raw "a"%hex; root_name] (raw "c"%hex) <> []) by (vm_compute; discriminate).
+  specialize (K H1 H2). vm_compute in K. discriminate.
+Qed.
+
+(* observable through the getters: /a/b<c> was written as 2 and reads as the default *)
+Example col_observable : exists t, parse (render col_doc) = Ok t /\
+  get_string_def t (raw "/a/b<c>"%hex) (raw "?"%hex) = Ok (raw "?"%hex) /\ get_string_def t (raw "/a<b>"%hex) [] = Ok (raw "1"%hex)
+  /\ get_domain t (raw "/a"%hex) = Ok [].
+Proof. eexists. split; [apply parse_rendered; [apply col_doc_ok|apply col_short]|]. vm_compute. repeat split. Qed.
+
+(* ------------------------------------------------------------------------------------------- *)
+(* the repairs are conservative: whatever the repaired parser accepts, the old loop accepted with the same tree *)
+Lemma st_set_mode m x : st (set_mode m x) = st x. Proof. reflexivity. Qed.
+Lemma st_emit ts x : st (emit ts x) = st x. Proof. reflexivity. Qed.
+Lemma st_put c x : st (put c x) = st x. Proof. reflexivity. Qed.
+Lemma st_puts cs x : st (puts cs x) = st x. Proof. reflexivity. Qed.
+Lemma st_shift c x : st (shift c x) = st x. Proof. reflexivity. Qed.
+Lemma st_reset_b x : st (reset_b x) = st x. Proof. reflexivity. Qed.
+Lemma st_mark s x : st x <> Clean -> mark s x = x.
+Proof. unfold mark. destruct (st x); [contradiction|reflexivity|reflexivity]. Qed.
+Lemma st_flush x : st x <> Clean -> st (flush x) = st x.
+Proof. unfold flush. cbn [st]. destruct (st x); [contradiction|reflexivity|reflexivity]. Qed.
+Lemma st_junk s x : st x <> Clean -> st (junk s x) = st x.
+Proof. intros H. unfold junk. rewrite st_set_mode, st_mark by assumption. reflexivity. Qed.
+
+Lemma st_text_step x c : st x <> Clean -> st (text_step x c) = st x.
+Proof.
+  intros H. unfold text_step. cbv zeta.
+  repeat match goal with |- context [if ?b then _ else _] => destruct b end;
+    rewrite ?(st_mark Failed x H); rewrite ?st_set_mode, ?st_shift, ?st_put, ?st_flush by assumption; reflexivity.
+Qed.
+
+Lemma st_drop2 x : st (drop2 x) = st x. Proof. reflexivity. Qed.
+Lemma st_cdata_step x c : st x <> Clean -> st (cdata_step x c) = st x.
+Proof.
+  intros H. unfold cdata_step.
+  repeat match goal with |- context [if ?b then _ else _] => destruct b end;
+    rewrite ?(st_mark Failed x H); rewrite ?st_set_mode, ?st_shift, ?st_put; rewrite ?st_flush by (rewrite st_drop2; assumption);
+    rewrite ?st_drop2; reflexivity.
+Qed.
+
+Lemma st_sticky x c : st x <> Clean -> st (lex_step x c) = st x.
+Proof.
+  intros H. unfold lex_step.
+  destruct (mode x); try (apply st_cdata_step; assumption);
+    repeat match goal with
+           | |- context [if ?b then _ else _] => destruct b
+           | |- context [match decode_entity ?r with _ => _ end] => destruct (decode_entity r)
+           | |- context [match frev ?r with _ => _ end] => destruct (frev r)
+           end;
+    rewrite ?(st_mark Failed x H), ?(st_mark Unmod x H);
+    rewrite ?st_text_step, ?st_reset_b, ?st_set_mode, ?st_emit, ?st_puts, ?st_put, ?st_junk by (rewrite ?st_reset_b, ?st_set_mode, ?st_puts, ?st_put; assumption);
+    rewrite ?st_reset_b, ?st_set_mode, ?st_emit, ?st_puts, ?st_put; try reflexivity.
+Qed.
+
+Lemma fold_sticky : forall bs x, st x <> Clean -> st (fold_left lex_step bs x) = st x.
+Proof.
+  induction bs as [|c r IH]; intros x H; [reflexivity|]. cbn [fold_left].
+  rewrite IH by (rewrite st_sticky; assumption). apply st_sticky. assumption.
+Qed.
+Lemma finish_sticky x : st x <> Clean -> st (lex_finish x) = st x.
+Proof.
+  intros H. unfold lex_finish. destruct (mode x); rewrite ?(st_mark Failed x H); try reflexivity.
+  - apply st_flush. assumption.
+  - rewrite st_flush; [reflexivity|]. rewrite st_puts. assumption.
+Qed.
+
+Lemma lex_prefix_clean : forall bs x, st (lex_finish (fold_left lex_step bs x)) = Clean ->
+  lex_prefix x bs = frev (out (lex_finish (fold_left lex_step bs x))).
+Proof.
+  induction bs as [|c r IH]; intros x H; cbn [lex_prefix fold_left] in *.
+  - rewrite H. reflexivity.
+  - destruct (st (lex_step x c)) eqn:E; [apply IH; assumption| |].
+    + exfalso. rewrite finish_sticky, fold_sticky in H by (rewrite ?fold_sticky; rewrite E; discriminate). rewrite E in H. discriminate.
+    + exfalso. rewrite finish_sticky, fold_sticky in H by (rewrite ?fold_sticky; rewrite E; discriminate). rewrite E in H. discriminate.
+Qed.
+
+Lemma balanced_prefix_id : forall ts stk, balanced_from stk ts = true -> balanced_prefix stk ts = ts.
+Proof.
+  induction ts as [|tok ts IH]; intros stk H; [reflexivity|]. destruct tok as [n|n|tx]; cbn in *.
+  - rewrite IH by assumption. reflexivity.
+  - destruct stk as [|top stk']; [discriminate|]. destruct (bytes_eqb top n); [|discriminate]. rewrite IH by assumption. reflexivity.
+  - rewrite IH by assumption. reflexivity.
+Qed.
+
+Lemma conf_loop_old_same : forall ts s stk t, conf_loop ts s stk = Ok t -> conf_loop_old ts s stk = Ok t.
+Proof.
+  induction ts as [|tok ts IH]; intros s stk t H.
+  - destruct stk; cbn in *; [discriminate|assumption].
+  - destruct stk as [|top below]; [cbn in H; discriminate|].
+    destruct tok as [n|n|tx]; cbn [conf_loop conf_loop_old] in *.
+    + destruct (lookup s (n :: top :: below)); apply IH; assumption.
+    + destruct (bytes_eqb top n); [apply IH; assumption|discriminate].
+    + destruct (do_segments s (top :: below) (split_lines tx)) as [s'|] eqn:D; [|discriminate].
+      apply IH in H. revert s D. induction (split_lines tx) as [|seg l IHl]; intros s D; cbn [do_segments] in D.
+      * inversion D; subst. exact H.
+      * destruct (max_scan_token <=? N.of_nat (length seg)); [discriminate|].
+        destruct (content_line seg); apply IHl; assumption.
+Qed.
+
+Theorem repair_conservative : forall bs t, parse bs = Ok t -> parse_old bs = Ok t.
+Proof.
+  intros bs t H. unfold parse in H. destruct (raw_status bs) eqn:S; try discriminate.
+  destruct (balanced (raw_tokens bs)) eqn:B; [|discriminate].
+  unfold parse_old. unfold raw_status, lex_run in S. rewrite (lex_prefix_clean bs lex_init S).
+  fold (lex_run bs). fold (raw_tokens bs). rewrite balanced_prefix_id by exact B.
+  apply conf_loop_old_same. exact H.
 Qed.
